@@ -315,7 +315,14 @@ def oracle_c11(line, case, stats, allc, lines):
             else:
                 stats['not_graceful'] = stats.get('not_graceful', 0) + 1
                 if end_handler_failed:
-                    pass
+                    # everything was flushed by finish() before the end handler ran: every received byte exactly once
+                    ok = (sink == received)
+                    if not ok and bail:
+                        i = sink.find(bail)
+                        while i >= 0:
+                            if sink[:i] + sink[i + len(bail):] == received: ok = True; break
+                            i = sink.find(bail, i + 1)
+                    if not ok: errs.append('end handler failed: sink (minus bail-out content) != received bytes (lost or duplicated input): sink=%r received=%r' % (sink[-120:], received[-120:]))
                 elif not received.startswith(sink): errs.append('without graceful bail-out the sink is not a prefix of the received bytes')
         break
     return errs[:3]
@@ -458,6 +465,8 @@ def oracle_c16(line, case, stats, allc, lines):
                 if bytes.fromhex(parts[2]) != name: errs.append('tag name %r != %r' % (bytes.fromhex(parts[2]), name))
                 if got != attrs: errs.append('attributes %r != reference %r for %r' % (got, attrs, raw[:80]))
                 if (m.group(2) == 'true') != sc: errs.append('self_closing %s != reference %s for %r' % (m.group(2), sc, raw[:80]))
+            if head is not None and ' r=' in head and '!' in head.split(' r=')[1].split(' ')[0]:
+                errs.append('get_attribute / has_attribute disagree with attributes() (an attribute that is listed cannot be looked up by its own name, or the lookup is not the first duplicate) on %r' % data[a:b][:80])
             # reads after edits
             if head is not None and ' a=' in head and head.split(' a=')[1] != '-':
                 after = head.split(' a=')[1]
